@@ -7,7 +7,7 @@ import proto
 
 THEOREMS = ['C08_length', 'C08_pointwise', 'C08_kept_entirely', 'C08_cleared_entirely', 'C08_runLen_const',
             'C08_no_new_true', 'C08_idempotent', 'C08_edges', 'C08_antitone_k', 'C08_monotone_mask',
-            'C08_guard', 'C08_small_k', 'C08_callers_cycles', 'C08_callers_amp']
+            'C08_guard', 'C08_small_k']
 RULE = ("every boolean array up to a length bound x every min_n_cycles in {0..n+1} plus half-integers (exhaustive), each as a contiguous array and as a strided "
         "view of a larger buffer (every other element / reversed / matrix column), "
         "then random arrays (several run-length distributions) up to length 2000 and guard cases (empty array, negative k); the same masks (every one up to length 8, a third "
